@@ -128,11 +128,11 @@ chk("C19", "exploration", "exhaustive callback-program enumeration + differentia
     "only are compared with the same effective pair configured through setkey.",
     "The callback-free twin and the setkey route are the oracles.", "DESIGN.md 3/C19")
 chk("C17", "fault_enumeration", "exhaustive single-allocation-failure injection through jwt_set_alloc + differential against the fault-free run, under ASan/UBSan",
-    "For each of 53 (quick) / 85 (thorough) scenarios (load every key type alone, public, in a set with a bad element, by strn; "
-    "builder and checker configuration with every value type and getters; generate for none/HS256/RS256/PS256/ES256/ES384/EdDSA "
+    "For each of 167 scenarios (load each of 9 keys - oct 48/64, RSA 2048/3072, P-256/384/521, Ed25519, Ed448 - alone, public, in a set with a bad element, by strn, from a file and a FILE*; "
+    "builder and checker configuration with every value type and getters; generate for none/HS256/HS512/RS256/PS256/PS384/ES256/ES384/ES512/EdDSA "
     "plain and with claims, offsets and a claim-setting callback; verify of a valid token and of bad-signature/expired/wrong-iss/"
     "none-with-key tokens; both providers) the number n of allocations is measured and every k in 1..n is failed, one at a time "
-    "(4.5e3 / 7.2e3 injections, all executed). Outcome must be 'same result' or 'reported failure'; crashes are caught by ASan; "
+    "(1.1e4 injections, all executed, in both tiers). Outcome must be 'same result' or 'reported failure'; crashes are caught by ASan; "
     "violation keys carry the symbolised call chain of the failing allocation.",
     "Only allocations routed through jwt_set_alloc (libjwt + jansson) fail; single faults; leaks under OOM not judged. Five open "
     "known findings are jansson-internal (jansson 2.14 ignores allocation failures in its parser, dumper and update_missing).",
